@@ -339,3 +339,61 @@ Proof.
   intros He Hm H. unfold static_limit in H. apply bind_err in H.
   destruct H as [H|(outs & ds1 & Ho & H)]; [exact (He _ H)|]. eapply limit_fold_err; [eapply Hm; exact Ho|exact H].
 Qed.
+
+(* ------------------------------------------------------------------ the pool hypothesis made precise *)
+(* a set of types closed under the argument types of the primitives offered, with a primitive and a
+   terminal at each: then generation cannot fail (Appendix B 7: "generation is considered only for sets
+   that offer a primitive/terminal wherever the generator asks for one") *)
+Definition offers (ps : pset) (tys : list ty) : Prop :=
+  forall t, In t tys -> prims ps t <> [] /\ terms ps t <> [] /\
+    forall p, In p (prims ps t) -> forall a, In a (nargs p) -> In a tys.
+
+Lemma d_choice_err_nonempty {A} (l : list A) ds e : l <> [] -> d_choice l ds = Err e -> e = EDraw.
+Proof.
+  unfold d_choice. destruct l as [|a l]; [congruence|]. intros _.
+  destruct ds as [|[] ds0]; try (intro H; inversion H; auto).
+  destruct ((n =? zlen (a :: l)) && (0 <=? i)); [|inversion H; auto].
+  destruct (nth_error (a :: l) (Z.to_nat i)); inversion H; auto.
+Qed.
+
+Lemma gen_loop_offers ps tys mode minh h : offers ps tys -> forall fuel st acc ds e,
+  Forall (fun x => In (snd x) tys) st ->
+  gen_loop fuel ps mode minh h st acc ds = Err e -> e = EDraw \/ e = EFuel.
+Proof.
+  intros Hoff. induction fuel as [|f IH]; intros st acc ds e Hst H.
+  - destruct st as [|[d t] st]; [discriminate|]. inversion H; auto.
+  - destruct st as [|[d t] st]; [discriminate|]. cbn [gen_loop] in H.
+    inversion Hst as [|? ? Ht Hst']; subst. cbn [snd] in Ht. destruct (Hoff t Ht) as (Np & Nt & Hargs).
+    apply bind_err in H. destruct H as [H|(c & ds1 & _ & H)].
+    { left. unfold condition in H. destruct mode; [discriminate|]. destruct (d =? h); [discriminate|].
+      destruct (minh <=? d); [|discriminate].
+      apply bind_err in H. destruct H as [H|(u & ? & _ & H)]; [|discriminate].
+      unfold d_random in H. destruct ds as [|[] ?]; try (inversion H; auto).
+      destruct ((0 <=? num) && (num <? Z.pos den)); inversion H; auto. }
+    destruct c.
+    + apply bind_err in H. destruct H as [H|(x & ds2 & _ & H)]; [left; eapply d_choice_err_nonempty; [|exact H]; assumption|].
+      apply bind_err in H. destruct H as [H|(x' & ds3 & _ & H)].
+      { left. unfold instantiate in H. destruct (neph x); [|discriminate].
+        apply bind_err in H. destruct H as [H|(? & ? & _ & H)]; [|discriminate].
+        unfold d_eph in H. destruct ds2 as [|[] ?]; try (inversion H; auto).
+        destruct (N.eqb name (nname x)); inversion H; auto. }
+      eapply IH; eauto.
+    + apply bind_err in H. destruct H as [H|(x & ds2 & Hx & H)]; [left; eapply d_choice_err_nonempty; [|exact H]; assumption|].
+      apply d_choice_ok in Hx. destruct Hx as [Hx _].
+      eapply IH; [|exact H]. apply Forall_app. split; auto.
+      apply Forall_forall. intros y Hy. apply in_map_iff in Hy. destruct Hy as (a & <- & Ha). cbn. eauto.
+Qed.
+
+Theorem generate_never_fails_when_offered ps tys mode minh maxh t ds e :
+  offers ps tys -> In t tys -> 0 <= minh <= maxh ->
+  generate ps mode minh maxh t ds = Err e -> e = EDraw.
+Proof.
+  intros Hoff Ht Hm H. pose proof (generate_no_fuel_error ps mode minh maxh t ds (proj1 Hm)) as NF.
+  unfold generate in H. apply bind_err in H. destruct H as [H|(h & ds1 & Hh & H)].
+  - unfold d_randint in H. replace (maxh <? minh) with false in H by (symmetry; apply Z.ltb_ge; lia).
+    destruct ds as [|[] ?]; try (inversion H; auto).
+    destruct ((minh =? lo) && (maxh =? hi) && (minh <=? r) && (r <=? maxh)); inversion H; auto.
+  - pose proof H as H'. apply (gen_loop_offers ps tys mode minh h Hoff) in H.
+    + destruct H as [H| ->]; auto. exfalso. apply NF. unfold generate, bind. rewrite Hh. exact H'.
+    + constructor; [exact Ht|constructor].
+Qed.
